@@ -944,9 +944,10 @@ func init() {
 	propMeta["C08"] = PropMeta{
 		Bounds: map[string]interface{}{
 			"quick":    "index options as values through the real option-handling code (toGeometryOpts -> NewPoly/NewLine -> makeSeries -> buildIndex): polygon 4+3 (hole) and line string of 4 positions with ALL real coordinates; IndexGeometryKind in {None, R-tree, quadtree, an unknown value 3}; IndexGeometry in {0, 1, exact point count, count+1, 64}; probes Point / two-point LineString / Rect with ALL real coordinates: Rect, Empty, Valid, NumPoints, JSON and Contains / Within / Intersects in both operand orders equal those of the index-free object. IndexChildren is decided by the C10 check (collections indexed or not), the representation options by the C09 check (SimplePoint == Point, Rect == polygon)",
-			"thorough": "same",
+			"thorough": "same, plus every IndexGeometry value {0, 1, 3, 4, 64} for both index kinds in the Parse jobs, and two-point LineString probes (ALL real coordinates) for every document but the Circle feature",
+			"parse":    "Parse executed on 22 CONCRETE documents (harness table vDocs: every standard type, 3-ordinate points, foreign members incl. escaped keys, bbox, a Circle feature, rectangle-shaped polygons that AllowRects accepts and near-misses it must refuse, polygons with 1-2 holes, nested and empty collection members, documents whose objects report themselves invalid) with IndexGeometry / IndexGeometryKind enumerated and IndexChildren in {0,1,2,64}, RequireValid, AllowSimplePoints, AllowRects, DisableCircleType SYMBOLIC, compared with the same document parsed under baseline options: rejection iff RequireValid and the baseline object reports invalid; objects returned under RequireValid are valid; Circle recognised alike; JSON and Contains / Within / Intersects (both operand orders) against a Point probe with ALL real coordinates identical; Rect / Empty / Valid / NumPoints identical when no representation option is set",
 		},
-		Outside:     []string{"that Parse routes ParseOptions to these sites, AllowRects' recognition condition, AllowSimplePoints' condition, RequireValid, Circle recognition: all inside gjson-bound parseJSON* functions which the encoder does not reach (a seeded change there, seeded/C08, is not caught)", "shapes larger than 4 positions"},
+		Outside:     []string{"documents other than the 22 listed: the accept / reject boundary over texts (C07) and gjson's scanners are never executed symbolically (gjson.Valid / Parse / Result.ForEach and pretty.UglyInPlace run natively on concrete text and hand concrete tokens to the library's own closures)", "Rect and LineString probes against the Circle document (symbolic execution of the 64-gon exceeds 3 min per job)", "constructor-path shapes larger than 4 positions"},
 		Stubs:       []string{"Segment.Raycast, Segment.IntersectsSegment -> specs (proved in-run)", "strconv.AppendFloat opaque token"},
 		Assumptions: commonAssumptions,
 	}
@@ -967,6 +968,26 @@ func init() {
 					for probe := 0; probe <= 2; probe++ {
 						out = append(out, Job{Pkg: "geojson", Harness: "H_Opts", Params: []int{4, shape, kind, mp, probe}, Timeout: 120, Scale: true, Contracts: c, Combine: true, Abstract: true, NoCover: kind+probe > 0})
 					}
+				}
+			}
+		}
+		// Parse itself: concrete documents (table vDocs in the harness), concrete geometry-index options, symbolic
+		// IndexChildren / RequireValid / AllowSimplePoints / AllowRects / DisableCircleType and symbolic probe,
+		// against the same document parsed with baseline options. gjson / pretty run natively on the concrete text;
+		// Result.ForEach hands each (key, value) pair to the library's closure, which is executed symbolically.
+		const nDocs = 22
+		type ik struct{ ig, kind int }
+		combos := []ik{{2, 0}, {2, 1}, {2, 2}, {3, 2}}
+		if tier == "thorough" {
+			combos = []ik{{2, 0}, {0, 1}, {1, 1}, {2, 1}, {3, 1}, {4, 1}, {0, 2}, {1, 2}, {2, 2}, {3, 2}, {4, 2}}
+		}
+		for doc := 0; doc < nDocs; doc++ {
+			for _, cb := range combos {
+				out = append(out, Job{Pkg: "geojson", Harness: "H_ParseOpts", Params: []int{doc, 0, 3, cb.ig, cb.kind}, Timeout: 120, Contracts: c, Combine: true, NoCover: cb.kind != 2 || cb.ig != 2, CoverKey: "doc" + strconv.Itoa(doc)})
+			}
+			if tier == "thorough" && doc != 10 {
+				for _, cb := range []ik{{2, 1}, {2, 2}} {
+					out = append(out, Job{Pkg: "geojson", Harness: "H_ParseOpts", Params: []int{doc, 1, 3, cb.ig, cb.kind}, Timeout: 300, Contracts: c, Combine: true, NoCover: true})
 				}
 			}
 		}
